@@ -38,6 +38,9 @@ inductive Out where
 
 def usizeMax : Nat := 2^64 - 1
 
+/-- `isize::MAX`: no allocation may be larger (a `Vec` asked for more panics with "capacity overflow"). -/
+def isizeMax : Nat := 2^63 - 1
+
 /-- `base.checked_add_signed(off)` on `u64`, then the `<= usize::MAX` test. -/
 def addSigned (base : Nat) (off : Int) : Option Nat :=
   let r := (base : Int) + off
@@ -66,6 +69,7 @@ def ACur.withCapacity (al c : Nat) : ACur := { cap := ceilDiv c al * al, get := 
 def ACur.write (al : Nat) (a : ACur) (buf : B) : ACur × Out :=
   let len := min buf.length (usizeMax - a.pos)
   if buf.length ≠ 0 ∧ len = 0 then (a, .invalidInput)
+  else if isizeMax < a.pos + len then (a, .panic)   -- the storage cannot grow beyond `isize::MAX` bytes: capacity overflow, nothing changed yet
   else if len < buf.length then (a, .panic)   -- copy_from_slice length mismatch
   else
     let cap' := if a.cap < a.pos + len then ceilDiv (a.pos + len) al * al else a.cap
@@ -77,6 +81,7 @@ def ACur.write (al : Nat) (a : ACur) (buf : B) : ACur × Out :=
 def ACur.writeImpl (al : Nat) (a : ACur) (buf : B) : ACur × Out :=
   let len := min buf.length (usizeMax - a.pos)
   if buf.length ≠ 0 ∧ len = 0 then (a, .invalidInput)
+  else if isizeMax < a.pos + len then (a, .panic)
   else if len < buf.length then (a, .panic)
   else
     let cap' := if a.cap < a.pos + len then ceilDiv (a.pos + len) al * al else a.cap
@@ -91,15 +96,17 @@ def ACur.writeImpl (al : Nat) (a : ACur) (buf : B) : ACur × Out :=
   · rfl
   · split
     · rfl
-    · congr 2
-      funext i
-      split
-      · simp only [Array.getD, List.getD, List.size_toArray]
-        by_cases h : i - a.pos < buf.length
-        · simp [h, List.getElem?_eq_getElem h]
-        · have : buf.length ≤ i - a.pos := by omega
-          simp [h, List.getElem?_eq_none this]
+    · split
       · rfl
+      · congr 2
+        funext i
+        split
+        · simp only [Array.getD, List.getD, List.size_toArray]
+          by_cases h : i - a.pos < buf.length
+          · simp [h, List.getElem?_eq_getElem h]
+          · have : buf.length ≤ i - a.pos := by omega
+            simp [h, List.getElem?_eq_none this]
+        · rfl
 
 /-- `read` into a buffer of `n` bytes -/
 def ACur.read (a : ACur) (n : Nat) : ACur × Out :=
@@ -167,6 +174,7 @@ def SCur.init : SCur := { buf := [], pos := 0 }
 
 /-- `write` (`vec_write`): zeros up to the position (also for an empty write), then overwrite / extend -/
 def SCur.write (s : SCur) (b : B) : SCur × Out :=
+  if isizeMax < s.pos + b.length then (s, .panic) else   -- `reserve` beyond `isize::MAX`: capacity overflow, nothing changed
   let v := if s.pos > s.buf.length then s.buf ++ zeros (s.pos - s.buf.length) else s.buf
   let v' := v.take s.pos ++ b ++ v.drop (s.pos + b.length)
   ({ buf := v', pos := s.pos + b.length }, .wrote b.length)
@@ -213,8 +221,14 @@ def SCur.step (s : SCur) : Op → SCur × Out
   | .readExact n =>
       if n ≤ s.buf.length - s.pos then s.read n else ({ s with pos := s.buf.length }, .eof)
   -- `write_all` (`vec_write_all`): the same padding and copy as `write`
-  | .writeAll b => ((s.write b).1, .unit)
-  | .writeV bufs => SCur.writeMany (s.write []).1 bufs 0
+  | .writeAll b =>
+      match s.write b with
+      | (s', .wrote _) => (s', .unit)
+      | r => r
+  | .writeV bufs =>
+      match s.write [] with
+      | (s', .wrote n) => SCur.writeMany s' bufs n
+      | r => r
   | .readV ns => s.readMany ns []
 
 /-- run a history, collecting the outputs -/
